@@ -2,6 +2,7 @@ package main
 
 import (
 	"bufio"
+	"os"
 	"fmt"
 	"io"
 	"math/big"
@@ -20,6 +21,51 @@ type Term struct {
 	B     bool
 	V     []int // sorted ids of the solver constants occurring in S
 	NL    bool  // contains a product/quotient of two non-constant terms
+	// light structure kept for exact division by constants: op '+' (args a,b), '-' (a,b), '*' (args x, constant c),
+	// 'i' (ite: cond, a, b); 0 = opaque
+	op   byte
+	args []Term
+}
+
+// divExact returns t/m when that quotient is exact for EVERY value of the variables, as decided from the term's
+// structure (products by constants, sums, differences and ite of such); ok=false otherwise.
+func divExact(t Term, m *big.Int) (Term, bool) {
+	if m.Sign() == 0 {
+		return Term{}, false
+	}
+	if t.Const {
+		q, r := new(big.Int).QuoRem(t.I, m, new(big.Int))
+		if r.Sign() == 0 {
+			return IntB(q), true
+		}
+		return Term{}, false
+	}
+	switch t.op {
+	case '*':
+		c := t.args[1].I
+		q, r := new(big.Int).QuoRem(c, m, new(big.Int))
+		if r.Sign() == 0 {
+			return Mul(t.args[0], IntB(q)), true
+		}
+		// m = g * m' with g | c: (x*c)/m = (x*(c/g))/m' only if x itself divisible: give up
+		return Term{}, false
+	case '+', '-':
+		a, ok1 := divExact(t.args[0], m)
+		b, ok2 := divExact(t.args[1], m)
+		if ok1 && ok2 {
+			if t.op == '+' {
+				return Add(a, b), true
+			}
+			return Sub(a, b), true
+		}
+	case 'i':
+		a, ok1 := divExact(t.args[1], m)
+		b, ok2 := divExact(t.args[2], m)
+		if ok1 && ok2 {
+			return Ite(t.args[0], a, b), true
+		}
+	}
+	return Term{}, false
 }
 
 var varMu sync.RWMutex
@@ -127,7 +173,7 @@ func Add(a, b Term) Term {
 	if b.Const && b.I.Sign() == 0 {
 		return a
 	}
-	return Term{S: app("+", a, b), V: unionV(a, b), NL: anyNL(a, b)}
+	return Term{S: app("+", a, b), V: unionV(a, b), NL: anyNL(a, b), op: '+', args: []Term{a, b}}
 }
 func Sub(a, b Term) Term {
 	if a.Const && b.Const {
@@ -136,13 +182,28 @@ func Sub(a, b Term) Term {
 	if b.Const && b.I.Sign() == 0 {
 		return a
 	}
-	return Term{S: app("-", a, b), V: unionV(a, b), NL: anyNL(a, b)}
+	return Term{S: app("-", a, b), V: unionV(a, b), NL: anyNL(a, b), op: '-', args: []Term{a, b}}
 }
 func Mul(a, b Term) Term {
 	if a.Const && b.Const {
 		return IntB(new(big.Int).Mul(a.I, b.I))
 	}
-	return Term{S: app("*", a, b), V: unionV(a, b), NL: anyNL(a, b) || (!a.Const && !b.Const)}
+	if a.Const && !b.Const {
+		a, b = b, a
+	}
+	if b.Const {
+		if b.I.Sign() == 0 {
+			return IntC(0)
+		}
+		if b.I.Cmp(big.NewInt(1)) == 0 {
+			return a
+		}
+		if a.op == '*' { // (x*c1)*c2 = x*(c1*c2)
+			return Mul(a.args[0], IntB(new(big.Int).Mul(a.args[1].I, b.I)))
+		}
+		return Term{S: app("*", a, b), V: a.V, NL: a.NL, op: '*', args: []Term{a, b}}
+	}
+	return Term{S: app("*", a, b), V: unionV(a, b), NL: true}
 }
 func Neg(a Term) Term { return Sub(IntC(0), a) }
 
@@ -260,7 +321,11 @@ func Ite(c, a, b Term) Term {
 	if a.S == b.S {
 		return a
 	}
-	return Term{S: app("ite", c, a, b), Bool: a.Bool, V: unionV(c, a, b), NL: anyNL(c, a, b)}
+	t := Term{S: app("ite", c, a, b), Bool: a.Bool, V: unionV(c, a, b), NL: anyNL(c, a, b)}
+	if !a.Bool {
+		t.op, t.args = 'i', []Term{c, a, b}
+	}
+	return t
 }
 
 // Solver drives one z3 process over pipes.
@@ -269,6 +334,7 @@ type Solver struct {
 	in      io.WriteCloser
 	out     *bufio.Reader
 	Queries int
+	sent    int
 	Unknown int
 	Errors  []string
 	Time    time.Duration
@@ -292,7 +358,10 @@ func NewSolver(bin string, args ...string) (*Solver, error) {
 	return &Solver{cmd: cmd, in: in, out: bufio.NewReader(out)}, nil
 }
 
+var slowLog = os.Getenv("VERIF_SLOWLOG") != ""
+
 func (s *Solver) Send(line string) {
+	s.sent++
 	if s.log != nil {
 		fmt.Fprintln(s.log, line)
 	}
@@ -319,6 +388,9 @@ func (s *Solver) Check() string {
 			s.Time += time.Since(t0)
 			if l == "unknown" {
 				s.Unknown++
+			}
+			if slowLog && time.Since(t0) > 500*time.Millisecond {
+				fmt.Fprintf(os.Stderr, "SLOW %.2fs %s (assertions sent so far: %d)\n", time.Since(t0).Seconds(), l, s.sent)
 			}
 			return l
 		case strings.HasPrefix(l, "(error"):
